@@ -61,6 +61,12 @@ def gen(tier, rng, shard, nshards):
             node = W.gen_invertible(rng, int(S.pick(rng, [0, 1, 1, 2])), dt, n, psd)
             if psd and node["k"] != "Annot":
                 node = {"k": "Annot", "name": "PSD", "arg": node}
+        if not psd and rng.random() < 0.08:
+            # products in which the very same operator object occurs more than once (A @ A, A @ B @ A, (c A) @ A)
+            a = W.gen_invertible(rng, int(S.pick(rng, [0, 0, 1])), dt, n, False)
+            b = W.gen_invertible(rng, 0, dt, n, False)
+            form = S.pick(rng, ["AA", "ABA", "AAA", "AAB"])
+            node = {"k": "Product", "via": S.pick(rng, ["ctor", "fn"]), "share": True, "args": {"AA": [a, a], "ABA": [a, b, a], "AAA": [a, a, a], "AAB": [a, a, b]}[form]}
         krylov_wish = rng.random() < 0.25  # Krylov pairs get |det| < 1 half of the time (logabs negative)
         if rng.random() < (0.6 if krylov_wish else 0.3):  # determinants on both sides of 1 in magnitude
             c = float(S.pick(rng, [0.25, 0.5, 3.0] if psd else [0.25, -0.5, 3.0, -2.0]))
